@@ -37,6 +37,7 @@ type c20Case struct {
 		Needed   bool   `json:"needed"`
 		Possible bool   `json:"possible"`
 		Kind     string `json:"kind"`
+		IOFail   bool   `json:"iofail"`
 	} `json:"c"`
 }
 
@@ -45,10 +46,22 @@ type c20World struct {
 	prot  map[string][]byte
 	a2    *arch
 	a1    *arch1
+	// a second PAR2 set with one file in a sub-directory that is NOT the first in recovery-set order
+	subNames []string
+	subProt  map[string][]byte
+	aSub     *arch
 }
 
 // buildState materialises the archive state in dir and returns the ground truth derived from bytes.
 func (w *c20World) buildState(dir, ext, state string) (needed, possible, indexOK bool, err error) {
+	if state == "partialfail" {
+		// everything protected is gone, including the sub-directory; all recovery blocks present
+		if err = w.aSub.materialise(dir, map[string][]byte{}, w.aSub.VolFiles); err != nil {
+			return
+		}
+		os.RemoveAll(filepath.Join(dir, "sub"))
+		return true, true, true, nil
+	}
 	disk := map[string][]byte{}
 	for _, n := range w.names {
 		disk[n] = w.prot[n]
@@ -166,6 +179,19 @@ func runC20(args []string) error {
 	if w.a1, err = buildArch1(filepath.Join(c.dir, "c20p1"), w.names, w.prot, 2, "set"); err != nil {
 		return err
 	}
+	w.subProt = map[string][]byte{"one.dat": w.prot["one.dat"], "two.dat": w.prot["two.dat"]}
+	for k := 0; ; k++ {
+		name := fmt.Sprintf("sub/three%d.dat", k)
+		w.subProt[name] = w.prot["three.dat"]
+		w.subNames = []string{"one.dat", "two.dat", name}
+		if w.aSub, err = buildArch(filepath.Join(c.dir, "c20p2sub"), w.subNames, w.subProt, 64, 30, 2, "set"); err != nil {
+			return err
+		}
+		if w.aSub.Order[0] != name {
+			break
+		}
+		delete(w.subProt, name)
+	}
 	f, err := os.Open(c.in)
 	if err != nil {
 		return err
@@ -228,7 +254,7 @@ func (w *c20World) runCase(c *common, lg *tracelog.Log, parBin string, ci int, c
 		if ext == "unknown" {
 			fileExt = "zip"
 		}
-		truth := tracelog.M{"needed": false, "possible": true, "index_ok": true, "inputs_ok": k.InputsOK, "matches_model": true}
+		truth := tracelog.M{"needed": false, "possible": true, "index_ok": true, "inputs_ok": k.InputsOK, "matches_model": true, "iofail": false}
 		if k.Cmd != "create" {
 			bext := ext
 			if ext == "unknown" {
@@ -240,6 +266,7 @@ func (w *c20World) runCase(c *common, lg *tracelog.Log, parBin string, ci int, c
 			}
 			truth["needed"], truth["possible"], truth["index_ok"] = needed, possible, indexOK
 			truth["matches_model"] = needed == k.Needed && (possible == k.Possible || !indexOK) && indexOK == k.IndexOK
+			truth["iofail"] = k.IOFail
 			if ext == "unknown" {
 				os.Rename(filepath.Join(setdir, "set.par2"), filepath.Join(setdir, "set.zip"))
 			}
@@ -274,6 +301,9 @@ func (w *c20World) runCase(c *common, lg *tracelog.Log, parBin string, ci int, c
 			} else {
 				if k.Cmd == "repair" && ci%3 == 0 {
 					argv = append(argv, "-doublecheck")
+				}
+				if k.Cmd == "verify" && ci%2 == 0 {
+					argv = append(argv, "-a") // full parity check (PAR1; accepted and ignored for PAR2)
 				}
 				argv = append(argv, spell("set."+fileExt))
 			}
@@ -329,9 +359,14 @@ func (w *c20World) runCase(c *common, lg *tracelog.Log, parBin string, ci int, c
 			}
 		}
 		allIntact := true
-		for _, n := range w.names {
+		inames, iprot := w.names, w.prot
+		if k.State == "partialfail" {
+			inames, iprot = w.subNames, w.subProt
+		}
+		_ = iprot
+		for _, n := range inames {
 			b, err := ioutil.ReadFile(filepath.Join(setdir, n))
-			if err != nil || !bytes.Equal(b, w.prot[n]) {
+			if err != nil || !bytes.Equal(b, iprot[n]) {
 				allIntact = false
 			}
 		}
